@@ -1487,6 +1487,11 @@ func genC26(r *simrt.Rand, tier string) any {
 			}
 		}
 	}
+	if r.Pct(15) {
+		// a backend that hands out directory entries in small batches whenever it is asked for "at most n" of
+		// them (legal; no effect on a server that reads the whole directory with one Readdir(-1))
+		sc.Faults = append(sc.Faults, simfs.Fault{Op: "File.Readdir", Nth: 1, Repeat: true, Kind: "shortok", Short: 1 + r.Int(5)})
+	}
 	return sc
 }
 
